@@ -38,7 +38,7 @@ Fixpoint utf8 (t : list Z) : option bytes :=
   | c :: r => match utf8_1 c, utf8 r with Some a, Some b => Some (a ++ b) | _, _ => None end
   end.
 
-(* f"{s:\0<64}": pad with NUL up to 64 characters, never truncate *)
+(* s.encode("utf-8").ljust(64, b"\0"): pad the encoded bytes with NUL up to 64, never truncate *)
 Definition pad64 (t : list Z) : list Z := t ++ repeatZ 0 (64 - length t).
 
 (** modular exponentiation by squaring over the bits of the exponent *)
@@ -60,9 +60,10 @@ Definition powmod (b e m : Z) : Z :=
     (modulus 0, credentials that do not fill whole AES blocks, un-encodable text) *)
 Definition ard_parts (user pw : list Z) (urandom : bytes) (g keylen : Z) (modulus serverkey : bytes)
   : option (bytes * bytes * bytes) :=
-  match utf8 (pad64 user ++ pad64 pw) with
-  | None => None
-  | Some plain =>
+  match utf8 user, utf8 pw with
+  | None, _ | _, None => None
+  | Some ub, Some pb =>
+      let plain := pad64 ub ++ pad64 pb in
       let s := be_dec urandom in
       let m := be_dec modulus in
       let sk := be_dec serverkey in
